@@ -1,6 +1,7 @@
 """C09 -- xcmp accepts or cleanly rejects every input (engines Q + I)."""
 from .. import cast, robust, flow, ivinterp
 from ..frontend import AnalysisBroken
+from ..ivinterp import Thrown, NeedSplit
 from ..cast import children, pos, walk, callee_of, qt, dqt
 
 # dynamic_casts in xcmp:: whose result is dereferenced without a null test, with the guard that makes them safe
@@ -98,6 +99,7 @@ def run(rep, tier):
         rep.add('R8', 'byte=0x%02X' % c, c not in probs, pos(rt.node) + ' xcmp::Lexer::readToken', probs.get(c, 'END_OF_FILE or a diagnostic is reached'),
                 nontrivial=(chr(c) in '|"\'#:<>~' or chr(c).isalnum()))
     rule_recursion(rep)
+    rule_peephole_bounds(rep, idx)
     if tier == 'thorough':
         import itertools
         reps = [0x20, 0x0A, 0x23, 0x7C, 0x22, 0x27, 0x5C, 0x61, 0x30, 0x2D, 0x3A, 0x3C, 0x7E, 0x3D, 0x80, 0xFF]
@@ -114,6 +116,27 @@ def rule_recursion(rep, rid='R10'):
              'the parser that builds the tree is so bounded' % robust.MAX_ACCEPTED_DEPTH_BOUND, floor=4,
              floor_reason='call-graph summary + expression-parser, statement-parser and tree-visitor components')
     return robust.rule_recursion(rep, rid, 'xcmp.cpp', tree_base='xcmp::AstNode', min_reachable=300)
+
+
+def rule_peephole_bounds(rep, idx, rid='R11'):
+    rep.rule(rid, 'the directive-level peephole pass (OptimiseDirectives) makes no out-of-range access to the directive vector on the streams '
+             'the code generator really hands it for the smallest programs (no procedure at all -- which is rejected only later, by the '
+             'assembler, as "unknown label main" -- and a single procedure): its look-ahead and skip loops stay inside the vector', floor=2)
+    from . import c08
+    where = 'xcmp.hpp xcmp::OptimiseDirectives::OptimiseDirectives'
+    for name, X, low in c08.pipeline_streams(idx):
+        try:
+            res, ub = c08.optimise(idx, X, low)
+            thrown = None
+        except Thrown as e:
+            res, ub, thrown = [], list(X.I.ub), e.what
+        except NeedSplit as e:
+            rep.undecided(rid, name, 'not uniform: %s' % e, where)
+            continue
+        bad = [u for u in ub if 'out-of-range' in str(u) or 'index' in str(u)]
+        ok = not bad and (thrown is None or 'out-of-range' not in thrown)
+        rep.add(rid, name, ok, where, ('out-of-range access: %s %s' % (bad[:2], thrown or '')) if not ok else
+                '%d directives in, %d out, no out-of-range access' % (len(low), len(res)))
 
 
 def _under_found_test(f, ret):
